@@ -474,3 +474,28 @@ VARIANTS["C18"] += [
     ("sift-down-only-with-right-child", PQX, "\t\telse:\n\t\t\tself._sift_down(position)\n\n\t\tdel c_old_score", "\t\telif _right_child(position) < self.heap.size():\n\t\t\tself._sift_down(position)\n\n\t\tdel c_old_score", "C18.R3"),
     ("b-sift-down-explicit-elif", PQX, "\t\telse:\n\t\t\tself._sift_down(position)\n\n\t\tdel c_old_score", "\t\telif not _vector_score_lower(c_old_score, c_new_score):\n\t\t\tself._sift_down(position)\n\n\t\tdel c_old_score", "silent"),
 ]
+
+# ------------------------------------------------------------------------------------------ round 6 rules
+VARIANTS["C06"] += [
+    ("r11-insertion-window-by-length", "whatshap/_variants.pyx", "        ref_end = ref_pos + 1 if cigar_op == 1 else ref_pos + length\n", "        ref_end = ref_pos + length\n", "C06.R11"),
+    ("r11-all-windows-one-base", "whatshap/_variants.pyx", "        ref_end = ref_pos + 1 if cigar_op == 1 else ref_pos + length\n", "        ref_end = ref_pos + 1\n", "C06.R11"),
+    ("b-r11-window-by-if-statement", "whatshap/_variants.pyx", "        ref_end = ref_pos + 1 if cigar_op == 1 else ref_pos + length\n", "        if cigar_op == 1:\n            ref_end = ref_pos + 1\n        else:\n            ref_end = ref_pos + length\n", "silent"),
+]
+VARIANTS["C15"] += [
+    ("r7-sub-instances-distrust-genotypes", "whatshap/polyphase/algorithm.py", "    sub_param.threads = 1\n", "    sub_param.threads = 1\n    sub_param.distrust_genotypes = True\n", "C15.R7"),
+    ("r7-sub-instances-block-cut", "whatshap/polyphase/algorithm.py", "    sub_param.threads = 1\n", "    sub_param.threads = 1\n    sub_param.block_cut_sensitivity = 0\n", "C15.R7"),
+]
+VARIANTS["C12"] += [
+    ("r5-split-left-piece-up-to-right-bound", "whatshap/cli/stats.py", "            if variant.position < split_left:", "            if variant.position < split_right:", "C12.R5"),
+    ("r5-split-right-piece-from-left-bound", "whatshap/cli/stats.py", "            elif variant.position > split_right:", "            elif variant.position > split_left:", "C12.R5"),
+]
+VARIANTS["C18"] += [
+    ("r1-lookup-by-subscript", "whatshap/priorityqueue.pyx", "\t\tcdef unordered_map[item_type,int].iterator it = self.positions.find(item)\n\t\tif it == self.positions.end():\n\t\t\treturn NULL\n", "\t\tif self.heap.size() == 0:\n\t\t\treturn NULL\n", "C18.R1"),
+]
+VARIANTS["C05"] += [
+    ("r7-family-skipped-when-few-positions", "whatshap/cli/phase.py", "                phasable_variant_table.subset_rows_by_position(accessible_positions)\n", "                if len(accessible_positions) < 2:\n                    continue\n                phasable_variant_table.subset_rows_by_position(accessible_positions)\n", "C05.R7"),
+]
+VARIANTS["C10"] += [
+    ("r7-secondary-alignments-used", "whatshap/variants.py", "                    or alignment.bam_alignment.is_secondary\n", "", "C10.R7"),
+    ("r7-mapq-threshold-inclusive", "whatshap/variants.py", "alignment.bam_alignment.mapping_quality < self._mapq_threshold", "alignment.bam_alignment.mapping_quality <= self._mapq_threshold", "C10.R7"),
+]
